@@ -1,10 +1,10 @@
 use proc_macro2::TokenStream;
 use quote::quote;
-use syn::{Error, FnArg, Pat};
+use syn::Error;
 
 use super::{
-    types::{ArgInfo, MethodAttrs},
-    utils::{convert_to_single_lifetime, snake_case_to_pascal_case, type_contains_lifetime},
+    types::MethodAttrs,
+    utils::{generate_params_struct_fields, parse_method_arguments, snake_case_to_pascal_case},
 };
 
 pub(super) fn generate_chain_extension_method(
@@ -58,6 +58,9 @@ pub(super) fn generate_chain_extension_method(
         })
         .collect();
 
+    // Generate the fields of the parameters struct.
+    let struct_fields = generate_params_struct_fields(&arg_infos);
+
     if arg_infos.is_empty() {
         generate_no_params_method(&method_ident, &method_path, crate_path)
     } else {
@@ -67,6 +70,7 @@ pub(super) fn generate_chain_extension_method(
             generics,
             combined_where_clause,
             param_fields,
+            struct_fields,
             arg_names,
             &method_generic_params,
             &method_where_clause,
@@ -75,47 +79,6 @@ pub(super) fn generate_chain_extension_method(
             crate_path,
         )
     }
-}
-
-fn parse_method_arguments<'a>(
-    method: &'a mut syn::TraitItemFn,
-    has_explicit_lifetimes: bool,
-) -> Result<Vec<ArgInfo<'a>>, Error> {
-    method
-        .sig
-        .inputs
-        .iter_mut()
-        .skip(1)
-        .filter_map(|arg| {
-            let FnArg::Typed(pat_type) = arg else {
-                return None;
-            };
-            let Pat::Ident(pat_ident) = &*pat_type.pat else {
-                return None;
-            };
-
-            let name = &pat_ident.ident;
-            let ty = &pat_type.ty;
-
-            // Only convert to single lifetime if there are no explicit lifetimes
-            let ty_for_params = if has_explicit_lifetimes {
-                (**ty).clone()
-            } else {
-                convert_to_single_lifetime(ty)
-            };
-
-            // Check if this argument has lifetimes
-            let has_lifetime = type_contains_lifetime(&ty_for_params);
-
-            Some(Ok(ArgInfo {
-                name,
-                ty_for_params,
-                has_lifetime,
-                is_optional: false,
-                serialized_name: None,
-            }))
-        })
-        .collect()
 }
 
 fn build_method_generics(
@@ -195,6 +158,7 @@ fn generate_with_params_method(
     generics: TokenStream,
     combined_where_clause: TokenStream,
     param_fields: Vec<TokenStream>,
+    struct_fields: Vec<TokenStream>,
     arg_names: Vec<&syn::Ident>,
     method_generic_params: &syn::punctuated::Punctuated<syn::GenericParam, syn::Token![,]>,
     method_where_clause: &Option<syn::WhereClause>,
@@ -253,7 +217,7 @@ fn generate_with_params_method(
                 struct #params_struct_name #generics
                 #struct_where
                 {
-                    #(#param_fields,)*
+                    #(#struct_fields,)*
                 }
 
                 #[derive(::serde::Serialize, ::core::fmt::Debug)]
